@@ -156,9 +156,12 @@ func BuildInput(ws WorldSpec) Input {
 	return Input{Cfg: cfg, FS: es, Kernel: HostTable(ws.HostLayout, cfg)}
 }
 
-var legalNames = []string{"base1", "gcc", "kde", "dev_1", "x", "L2", "stage-3", "a", "ab", "abc", "b", "zz9"}
+// "voilà" and "Рх" are legal names with two-byte UTF-8 letters (inside the modelled ranges); their
+// encodings contain the bytes 0xA0 and 0x85, which are white space when taken for Latin-1 characters
+var legalNames = []string{"base1", "gcc", "kde", "dev_1", "x", "L2", "stage-3", "a", "ab", "abc", "b", "zz9", "voilà", "Рх"}
 var oddNames = []string{"", "-lead", "has space", "sl/ash", "dot.name", "base1~removed", "tilde~", "$x",
-	strings.Repeat("n", 70), "nosuch", "é", strings.Repeat("L", 256), strings.Repeat("m", 255), strings.Repeat("x", 400)}
+	strings.Repeat("n", 70), "nosuch", "é", strings.Repeat("L", 256), strings.Repeat("m", 255), strings.Repeat("x", 400),
+	"×x", "中"} // a two-byte rune outside the modelled letter ranges, a three-byte rune: out of domain
 
 func PickName(r *rng.R) string {
 	if r.Chance(1, 5) {
